@@ -57,17 +57,19 @@ Proof. vm_compute. split; reflexivity. Qed.
 
 (** [limit_mono] applies to the code as it is iff no swallowing site is left. *)
 Definition limit_mono_applies : bool := forallb (fun s => negb (swallows s)) discard_sites.
+Lemma applicability_gen (l : list (string * string * bool)) :
+  forallb (fun s => negb (swallows s) || KnownSite s) l = true ->
+  forallb (fun s => negb (swallows s)) l = true \/
+  exists s, In s l /\ swallows s = true /\ KnownSite s = true.
+Proof.
+  induction l as [|x r IH]; intro H; [left; reflexivity|].
+  cbn [forallb] in H. apply andb_true_iff in H as [Hx Hr].
+  destruct (swallows x) eqn:Sx.
+  - right. exists x. repeat split; [left; reflexivity|exact Sx|exact Hx].
+  - destruct (IH Hr) as [Hall|(s & Hin & Hs & Hk)].
+    + left. cbn [forallb]. rewrite Sx, Hall. reflexivity.
+    + right. exists s. repeat split; auto. right. exact Hin.
+Qed.
 Lemma C12_applicability : limit_mono_applies = true \/
   exists s, In s discard_sites /\ swallows s = true /\ KnownSite s = true.
-Proof.
-  destruct limit_mono_applies eqn:E; [left; reflexivity|right].
-  unfold limit_mono_applies in E.
-  assert (H : exists s, In s discard_sites /\ swallows s = true).
-  { clear -E. induction discard_sites as [|x r IH]; cbn in E; [discriminate|].
-    destruct (swallows x) eqn:Sx; cbn in E.
-    - exists x. split; [left; reflexivity|exact Sx].
-    - destruct (IH E) as [s [Hin Hs]]. exists s. split; [right; exact Hin|exact Hs]. }
-  destruct H as [s [Hin Hs]]. exists s. repeat split; auto.
-  pose proof C12_sites_covered as Hc. rewrite forallb_forall in Hc. specialize (Hc s Hin).
-  rewrite Hs in Hc. exact Hc.
-Qed.
+Proof. exact (applicability_gen discard_sites C12_sites_covered). Qed.
